@@ -11,8 +11,8 @@ the conjunction of rule instances owned by other packs, re-evaluated here and re
   T3 payload pairing: the bytes returned by read_sample are the buffer of the looked-up size filled by the read_exact
      that follows the absolute seek to the looked-up offset (C15-R3 + C03 R-FOOT bytes): no stale or partial buffer is
      ever returned.
-  T4 required-box checks guard the unwraps: every Option::unwrap in the two open functions and in the box decoders is
-     discharged by a dominating is_none()->Err test (C06 D-UNWRAP instances, accepted/known entries excluded).
+  T4 no panic at any cut point: every panic-capable construct reachable from the reader API (C06's whole inventory: asserts,
+     panicking callees, recursion) is discharged; C06's listed known findings concern malformed tables and are excluded.
   T5 no hang: every box-walk / read loop of the reader closure satisfies the progress rules (C07 R-BOXWALK.*, R-CLASS of
      consuming loops).
 NOT decided: equality of what is returned with the complete file's results beyond T3 (a runtime relation).
@@ -35,7 +35,7 @@ def run(fx, chk, tier):
     chk.rule("T1", "top-level child sizes are bounded by the given length before dispatch (C08 R-CHAIN in both open functions)")
     chk.rule("T2", "whole transfers only and every reader-side I/O error propagates (C10-R1/R2)")
     chk.rule("T3", "returned sample bytes = buffer filled by read_exact after the absolute seek (C15-R3, C03 R-FOOT)")
-    chk.rule("T4", "unwraps of required boxes are guarded by is_none -> Err (C06 D-UNWRAP instances)")
+    chk.rule("T4", "no cut point causes a panic: every panic-capable construct reachable from the reader API is discharged (C06 instances other than its listed findings about malformed tables)")
     chk.rule("T5", "every box-walk / read loop makes progress (C07 R-BOXWALK.*, R-CLASS)")
     cg = callgraph(fx)
     rclo = cg.closure(reader_entries(fx))
@@ -80,27 +80,10 @@ def run(fx, chk, tier):
     s3 = silent("C03")
     c03.run(fx, s3, tier)
     take(s3, ["R-FOOT"], "T3", lambda o: o["key"] == "Mp4Sample.bytes")
-    # T4
-    c06 = importlib.import_module("c06")
-    s6 = silent("C06")
-    c06.run(fx, s6, tier)
-
-    def unwrap_in_decoder(o):
-        k = o["key"]
-        if "|unwrap_opt:" not in k:
-            return False
-        return "ReadBox<" in k.split("|")[0] or k.startswith(("<R>::read_header|", "<R>::read_fragment_header|"))
-    for o in s6.obligations:
-        if o["rule"] == "PF.call" and unwrap_in_decoder(o):
-            n["T4"] += 1
-            key = "C06:%s" % o["key"]
-            if o["ok"] and o["how"].startswith("D-UNWRAP"):
-                chk.ok("T4", key, o["how"], o["site"])
-            elif o["ok"]:
-                # accepted invariant (listed in C06's trusted base): not a guard-by-test instance
-                chk.ok("T4", key, "C06 accepted: " + o["how"][:120], o["site"])
-            else:
-                chk.bad("T4", key, o["how"], o["site"], o.get("detail"))
+    # T4: every panic-capable construct reachable from the reader API is discharged (all C06 instances; its listed known
+    # findings need malformed tables, which a prefix of a valid file does not contain, and are not instances here)
+    from packs_common import compose
+    n["T4"] = compose(fx, chk, tier, "T4", "C06", ["PF"], floor=400, what="panic obligations of the reader closure")
     # T5
     c07 = importlib.import_module("c07")
     s7 = silent("C07")
@@ -110,8 +93,6 @@ def run(fx, chk, tier):
     chk.floor("T1", "top-level child-size hand-offs", n["T1"], 8)
     chk.floor("T2", "reader-side I/O call expressions", n["T2"], 300)
     chk.floor("T3", "payload pairing obligations", n["T3"], 3)
-    # no floor for T4: required-box unwraps may legitimately be rewritten as `ok_or(..)?` (no unwrap left to guard)
-    chk.counts["T4:guarded unwraps in decoders"] = n["T4"]
     chk.floor("T5", "loop progress obligations", n["T5"], 60)
     chk.analysed["instances"] = n
     return chk.finish(
